@@ -154,21 +154,22 @@ Proof.
 Qed.
 
 (* ------------------------------------------------------------------ time and validity period (after the fix) *)
-Lemma time_of_blocks_np blocks : np (time_of_blocks false blocks).
+Lemma time_of_blocks_np data blocks : List.length data = 7%nat -> np (time_of_blocks false data blocks).
 Proof.
-  unfold time_of_blocks. cbn [negb andb].
+  intros Hd. unfold time_of_blocks. cbn [negb andb].
   destruct (N.ltb_spec (N.of_nat (List.length blocks)) 7) as [|Hl]; auto.
   repeat (match goal with
-          | |- np (obind (idx blocks ?i) _) =>
+          | |- np (obind (idx ?l ?i) _) =>
             let x := fresh "x" in let Hx := fresh "Hx" in
-            destruct (idx_in_range blocks i) as [x Hx]; [lia|]; rewrite Hx; cbn [obind]
+            destruct (idx_in_range l i) as [x Hx]; [lia|]; rewrite Hx; cbn [obind]
           end).
-  auto.
+  destruct (zone_of false x0 x). auto.
 Qed.
 Lemma time_read_np bs : np (time_read_gen false bs).
 Proof.
-  unfold time_read_gen. apply np_bind; [apply read_n_np|]. intros [data bs1] _.
-  apply np_bind; [apply time_of_blocks_np|]. intros; auto.
+  unfold time_read_gen. apply np_bind; [apply read_n_np|]. intros [data bs1] Hr.
+  apply read_n_length in Hr.
+  apply np_bind; [apply time_of_blocks_np; exact Hr|]. intros; auto.
 Qed.
 Lemma rel_read_np bs : np (rel_read bs).
 Proof.
@@ -390,17 +391,20 @@ Proof.
   destruct (N.ltb_spec 7 (1 + blen body)); [lia|]. eauto.
 Qed.
 
-Lemma field_write_ok t vpf f v : val_fits (f_ekind f) v -> exists out, field_write t vpf f v = Ok out.
+Lemma field_write_ok t vpf dcs f v : val_fits (f_ekind f) v -> exists out, field_write t vpf dcs f v = Ok out.
 Proof.
   unfold field_write. destruct (f_ekind f), v; cbn [val_fits]; try contradiction; eauto.
-  destruct v; intros Hv; eauto. apply enh_write_ok. exact Hv.
+  - (* the slice of the user data stays inside the field: (7n+7)/8 <= n, also for n = 0 *)
+    intros _. destruct (String.eqb (f_tp f) "UD" && counts_septets dcs); [|eauto].
+    destruct (N.ltb_spec (blen l) ((blen l * 7 + 7) / 8)); [lia|eauto].
+  - destruct v; intros Hv; eauto. apply enh_write_ok. exact Hv.
 Qed.
 
 Lemma fields_write_ok t vpf fs vs :
-  Forall2 (fun f v => val_fits (f_ekind f) v) fs vs -> exists out, fields_write t vpf fs vs = Ok out.
+  Forall2 (fun f v => val_fits (f_ekind f) v) fs vs -> forall dcs, exists out, fields_write t vpf dcs fs vs = Ok out.
 Proof.
-  induction 1 as [|f v fr vr Hfv _ IH]; cbn [fields_write]; [eauto|].
-  destruct (field_write_ok t vpf f v Hfv) as [a Ha]. destruct IH as [b Hb].
+  induction 1 as [|f v fr vr Hfv _ IH]; intros dcs; cbn [fields_write]; [eauto|].
+  destruct (field_write_ok t vpf dcs f v Hfv) as [a Ha]. destruct (IH (dcs_after dcs f v)) as [b Hb].
   rewrite Ha, Hb. cbn. eauto.
 Qed.
 
